@@ -5,9 +5,11 @@ import hashlib
 import json
 import os
 import random
+import signal
 import subprocess
 import sys
 import time
+import traceback
 
 VERIF = os.path.dirname(os.path.dirname(os.path.abspath(__file__)))
 REPO = os.environ.get("VERIF_REPO", "/repo")
@@ -97,3 +99,42 @@ class Timer:
 
     def s(self):
         return round(time.time() - self.t0, 2)
+
+
+class Watchdog:
+    """Progress watchdog for the phases that run the implementation (suite generation, python-side checks,
+    finding witnesses).  A changed implementation can loop for ever (a serving loop that no longer stops at
+    end of stream, a retry loop without its bound); the check must still end with a verdict.  Every completed
+    Case re-arms a SIGALRM timer; when no case completes within the budget (default 600 s quick / 7200 s
+    thorough, VERIF_PROGRESS_WATCHDOG_S overrides - whole quick checks take one to three minutes) the handler writes the
+    replay (where the main thread is stuck, the last completed case), prints the VIOLATION line and ends the
+    process: raising into the stuck code would not do, the serving loops swallow every exception."""
+
+    def __init__(self):
+        self.budget, self.on_trip, self.last, self.phase, self.armed = 0, None, None, "", False
+
+    def start(self, budget, phase, on_trip):
+        self.budget, self.phase, self.on_trip, self.armed = budget, phase, on_trip, True
+        signal.signal(signal.SIGALRM, self._fire)
+        signal.setitimer(signal.ITIMER_REAL, budget)
+
+    def stop(self):
+        if self.armed:
+            signal.setitimer(signal.ITIMER_REAL, 0)
+            self.armed = False
+
+    def beat(self, desc):
+        if self.armed:
+            self.last = desc
+            signal.setitimer(signal.ITIMER_REAL, self.budget)
+
+    def _fire(self, signum, frame):
+        self.armed = False
+        stack = "".join(traceback.format_stack(frame)[-12:])
+        self.on_trip({"kind": "watchdog", "phase": self.phase,
+                      "detail": "the implementation did not finish a case within %d s (%s); main thread stuck at:\n%s"
+                                % (self.budget, self.phase, stack[-2500:]),
+                      "last_completed_case": self.last})
+
+
+WATCHDOG = Watchdog()
